@@ -24,8 +24,9 @@ EXPLANATION = (
     "retry payload list = failed list, exception classes escaping _handle_responses compared with the handler cover "
     "computed from the class table of common.py, attempt increment paired with every produce send, limit test "
     "dominating the retry timer, multiplicative back-off with a constant > 1 and unconditional reset."
+    ' Also: once the produce request was made the send stage returns its Deferred on every path (R1).'
 )
-SHARED = [('C07', ['R3', 'R5'], 'failed payloads are attributed to the right request'), ('C06', ['R5'], 'a produce attempt that timed out is not written later alongside its retry')]
+SHARED = [('C01', ['R4'], 'with acknowledgements disabled exactly the payloads handed to their broker are reported done: a failed one is not reported and then re-sent'), ('C07', ['R3', 'R5'], 'failed payloads are attributed to the right request'), ('C06', ['R5'], 'a produce attempt that timed out is not written later alongside its retry')]
 ASSUMPTIONS = [
     "Python list/dict(defaultdict)/zip preserve insertion order (language guarantee >= 3.7)",
     "Twisted fires chain stages in registration order",
@@ -357,7 +358,7 @@ def run(ctx):
 
     # ---- R5 attempts bounded
     r = ctx.rule("R5", "every produce send increments the attempt counter; a retry is scheduled only below the "
-                       "limit", 3, "B")
+                       "limit", 4, "B")
     for f in (sreq, dor):
         cf2 = ctx.cfg(f)
         for n in cf2.nodes:
@@ -373,6 +374,19 @@ def run(ctx):
                 r.check(bool(inc) and not cf2.normal_exits_from(n.id, avoid=inc), "%s#attempt-increment" % f.qname,
                         "a produce send is not followed by `_req_attempts += 1` on every path", where(f, n.stmt),
                         "more produce attempts than max_req_attempts")
+    # the partition lookup waits for usable metadata under the same budget: every round that goes back to sleep is counted,
+    # whatever the topic's error is (a topic stuck in LEADER_NOT_AVAILABLE must fail the send, not hold it for ever)
+    npf = ctx.func(PROD + "._next_partition")
+    cnp = ctx.cfg(npf)
+    sleeps = [n for n in cnp.nodes if any(call_name(c) == "callLater" for c in n.calls())]
+    incs_ = [m.id for m in cnp.nodes if m.kind == "stmt" and isinstance(m.stmt, ast.AugAssign) and self_attr(m.stmt.target) == "_req_attempts" and isinstance(m.stmt.op, ast.Add)]
+    lim_t = [n for n in cnp.nodes if n.kind == "test" and "_req_attempts" in norm(at(ctx, npf, n.id, n.stmt.test)) and "_max_attempts" in norm(at(ctx, npf, n.id, n.stmt.test))]
+    okn = bool(sleeps) and bool(incs_) and bool(lim_t)
+    for sl_ in sleeps:
+        # from the limit test of this round to the sleep, every path passes the increment
+        okn = okn and all(sl_.id not in cnp.reach([t for t, lab in cnp.succ[lt_.id] if lab != ("exc",)], avoid=incs_, follow_exc=False) for lt_ in lim_t)
+    r.check(okn, "%s#every-round-counted" % npf.qname, "a round of the metadata wait can go back to sleep without counting against the attempt limit",
+            where(npf, sleeps[0].stmt if sleeps else npf.node), "a topic that stays in an error state: its sends - and everything queued behind them - never complete")
     cc2 = ctx.cfg(crp)
     fc = ctx.facts(crp)
     for n in cc2.nodes:
@@ -382,7 +396,7 @@ def run(ctx):
                     "attempt count exceeds the configured maximum")
 
     # ---- R6 geometric back-off with reset
-    r = ctx.rule("R6", "delay used = current interval, then multiplied by a constant > 1; completion resets", 3, "E")
+    r = ctx.rule("R6", "delay used = current interval, then multiplied by a constant > 1; completion (and nothing else) resets", 4, "E")
     for n in cc2.nodes:
         for c in n.calls():
             if call_name(c) == "callLater":
@@ -402,6 +416,18 @@ def run(ctx):
                 r.check(ok, "%s#backoff-kernel" % crp.qname,
                         "retry delay is not `current interval` followed by `interval *= constant > 1` (factor=%r)" % fac,
                         where(crp, c), "retries do not back off geometrically", facts=["factor=%r" % fac])
+    # the interval goes back to its initial value only where the batch resolves (and in the constructor): a reset inside
+    # the response handling restarts the back-off in the middle of a batch
+    early = []
+    for f_, k_, node_ in prog.attr_accesses(ci, "_retry_interval", False):
+        if k_ != "write" or f_.name == "__init__" or f_ is cbs:
+            continue
+        hit_ = ctx.cfg(f_).containing(node_)
+        v_ = node_assign_value(hit_[0], "_retry_interval") if hit_ else None
+        if v_ is not None:
+            early.append("%s line %d: `%s`" % (f_.qname, getattr(node_, "lineno", 0), norm(v_, 50)))
+    r.check(not early, "%s#interval-reset-only-on-completion" % PROD, "the retry interval is re-assigned outside the completion stage: %s" % early,
+            where(cbs, cbs.node), "a partially successful attempt resets the back-off: the failing partitions are retried at the initial interval again and again")
     resets = {"_retry_interval": None, "_req_attempts": None}
     for n in cc.nodes:
         for a in resets:
